@@ -1,6 +1,8 @@
 package engine
 
 import (
+	"bytes"
+
 	"github.com/cockroachdb/pebble"
 	"github.com/youzan/ZanRedisDB/common"
 )
@@ -58,7 +60,12 @@ func (it *pebbleIterator) Seek(key []byte) {
 	it.Iterator.SeekGE(key)
 }
 
+// SeekForPrev moves to the last key which is less than or equal to the given key
+// (the same as rocksdb). SeekLT alone is strict and would miss the key equal to it.
 func (it *pebbleIterator) SeekForPrev(key []byte) {
+	if it.Iterator.SeekGE(key) && bytes.Equal(it.Iterator.Key(), key) {
+		return
+	}
 	it.Iterator.SeekLT(key)
 }
 
